@@ -736,6 +736,9 @@ def rule_builders_fresh(ctx, rule):
         rets = list(returned_exprs(f.node))
         if not rets:
             continue
+        params = set(f.params())
+        if all(isinstance(r, _ast.Constant) or (isinstance(r, _ast.Name) and r.id in params) for r in rets):
+            continue  # a helper that hands back one of its arguments or a constant: it returns no frame
         n += 1
         ok, why = True, ''
         memo = [d for d in f.node.decorator_list if 'cache' in _ast.unparse(d)]
